@@ -13,6 +13,11 @@ Theorem C19_keys_full : forall d, parse_doc (retype_keys d) = parse_doc d.
 Proof. exact keys_full. Qed.
 Print Assumptions C19_keys_full.
 
+(* an int key prints back as the text it was read from: str(int(s)) = s for every canonical decimal string *)
+Theorem C19_int_key_roundtrip : forall s, is_canonical_dec s = true -> dec (dec_value s 0) = s.
+Proof. exact dec_roundtrip. Qed.
+Print Assumptions C19_int_key_roundtrip.
+
 Theorem C19_regression_F07b :
   all_str doc_F07b = true /\ all_str (retype_keys doc_F07b) = false /\
   map p_codes (parse_doc (retype_keys doc_F07b)) = [[s_200]] /\
@@ -69,9 +74,8 @@ Theorem C19_guard_nonvacuous :
    gen_fields demo_san (rev demo_props) = gen_fields demo_san demo_props) /\
   (guard_acyclic graph_F02a = false /\ guard_no_allof_cycle graph_F02a = true /\
    guard_acyclic graph_F02c = false /\ guard_no_allof_cycle graph_F02c = false /\
-   guard_acyclic graph_dag = true /\ guard_no_allof_cycle graph_dag = true) /\
-  forallb (fun n => is_canonical_dec (dec n) && str_eqb (dec (dec_value (dec n) 0)) (dec n) && (dec_value (dec n) 0 =? n)) (upto 1000) = true.
+   guard_acyclic graph_dag = true /\ guard_no_allof_cycle graph_dag = true).
 Proof.
-  exact (conj guard_collide_nonvacuous (conj prop_order_nonvacuous (conj graph_guards_examples dec_roundtrip_0_999))).
+  exact (conj guard_collide_nonvacuous (conj prop_order_nonvacuous graph_guards_examples)).
 Qed.
 Print Assumptions C19_guard_nonvacuous.
